@@ -208,6 +208,7 @@ func c15R2(c *Ctx, rule string) {
 	}
 	// success returns
 	nSucc := 0
+	sawCapFromKey := false
 	for _, r := range returnsOf(an) {
 		if errIsNilAt(resultValue(r, 0), r) == "nonnil" {
 			continue
@@ -215,6 +216,7 @@ func c15R2(c *Ctx, rule string) {
 		nSucc++
 		strict := false
 		capSrc := ""
+		capFromKey := false
 		for _, at := range AtomsAt(r) {
 			if at.Kind != "cmp" || at.Op != token.LSS {
 				continue
@@ -222,9 +224,14 @@ func c15R2(c *Ctx, rule string) {
 			if fv, _ := loadedField(at.X); fv == numF {
 				strict = true
 				capSrc = Expr(at.Y)
+				// whatever the variable is called: everything that can be in it was decoded from the SessionsCap key
+				if allSourcesSatisfy(p, at.Y, func(v ssa.Value) bool { return getKeyOf(p, v) == "SessionsCap" }, 0, map[ssa.Value]bool{}) {
+					capFromKey = true
+					sawCapFromKey = true
+				}
 			}
 		}
-		okCap := strings.Contains(capSrc, "sessionsCap") || strings.Contains(capSrc, "SessionsCap")
+		okCap := strings.Contains(capSrc, "sessionsCap") || strings.Contains(capSrc, "SessionsCap") || capFromKey
 		c.Check(strict && okCap, rule, "success return of AuthoriseNewSession at "+c.at(r), c.at(r), "guarded by NumExistingSessions < "+capSrc,
 			"a new session is authorised without the strict test 'existing < cap' against the stored SessionsCap (cap+1 sessions possible)")
 	}
@@ -249,7 +256,7 @@ func c15R2(c *Ctx, rule string) {
 			}
 		})
 	}
-	c.Check(okKey, rule, "cap compared is the stored SessionsCap", c.atFn(an), "sessionsCap ← decode(Get(\"SessionsCap\"))", "the cap variable is not decoded from the SessionsCap key")
+	c.Check(okKey || sawCapFromKey, rule, "cap compared is the stored SessionsCap", c.atFn(an), "sessionsCap ← decode(Get(\"SessionsCap\"))", "the cap variable is not decoded from the SessionsCap key")
 	// the count passed is len(u.sessions) under the lock
 	ls := p.Locksets()
 	n := 0
